@@ -32,7 +32,7 @@ Bounds(f) ==
 
 ILit(v) == [k |-> "int", v |-> v]
 
-AllAbs == {"a-1", "a0", "a10"}
+AllAbs == {"a-1", "a0", "a10", "amin"}      \* "amin": close to i32::MIN, so that a negative delta wraps downwards
 AllRel == {"r0", "r5", "rmul", "rneg", "rmax"}
 AbsToks(small) == IF small THEN {"a-1", "a10"} ELSE AllAbs
 RelToks(small) == IF small THEN {"r5", "rneg"} ELSE AllRel
@@ -41,7 +41,7 @@ AnyContent == AllAbs \cup AllRel \cup {"I"}
 Opens   == {"{", "L{", "F{"}
 
 \* the value a label token denotes, written down directly (not through ExprSem)
-AbsVal(x) == CASE x = "a-1" -> -1 [] x = "a0" -> 0 [] x = "a10" -> 10
+AbsVal(x) == CASE x = "a-1" -> -1 [] x = "a0" -> 0 [] x = "a10" -> 10 [] x = "amin" -> -2147483647
 RelVal(x) == CASE x = "r0" -> 0 [] x = "r5" -> 5 [] x = "rmul" -> 6 [] x = "rneg" -> -3 [] x = "rmax" -> 2147483647
 
 \* the statement a content token stands for (interchange form, rendered by vh::render)
@@ -51,6 +51,7 @@ StmtOf(x) ==
       [] x = "a-1"  -> [k |-> "abs", t |-> -1]
       [] x = "a0"   -> [k |-> "abs", t |-> 0]
       [] x = "a10"  -> [k |-> "abs", t |-> 10]
+      [] x = "amin" -> [k |-> "abs", t |-> -2147483647]
       [] x = "r0"   -> [k |-> "rel", e |-> ILit(0)]
       [] x = "r5"   -> [k |-> "rel", e |-> ILit(5)]
       [] x = "rmul" -> [k |-> "rel", e |-> [k |-> "bin", op |-> "*", a |-> ILit(2), b |-> ILit(3)]]       \* +(2 * 3):
